@@ -213,6 +213,10 @@ def s15_6(ctx, P):
     ctx.floor(P + ':S15-6:floor', 'hashed subpacket serialisation site in hash_signature_data', len(sinks), 1)
     conditional_guard(ctx, P + ':S15-6:critical-unknown', b, sinks, r'field:Subpacket\.is_critical$', [r'call:.*Subpacket::typ$'],
                       'a critical subpacket of unknown type is rejected before it is hashed')
+    # the unknown-type test is the bare `SubpacketType::Other(_)` variant test: no condition on the numeric type id narrows it
+    narrowed = [i for i, t in b.switches() if has_origin(b.switch_origins(i), r'field:.*SubpacketType::Other\.0$')]
+    ctx.check(P + ':S15-6:critical-unknown-any-id', 'R-table', 'every unknown subpacket type id is covered by the critical-bit rule (no range test on the id)', not narrowed, function=b.path,
+              site=site(b, narrowed[0]) if narrowed else None)
     # issuer fingerprint version
     dom = b.dominators()
     bad = None
